@@ -555,6 +555,14 @@ class Arr:
                 adopt_legs(root, None, sel, o)
             self.tags['inplace_done'] = True
         CTX.event('inplace-op', target=self, op=name, value=o)
+        if name in ('mul', 'truediv') and isinstance(o, (int, float, complex)) and not isinstance(o, bool) and 'sel_of' not in self.tags:
+            # x *= c : the array now holds c times its previous value; keep that value as a snapshot so that scalar factors stay traceable
+            c0, root = self.tags.get('scale', (1, None))
+            if root is None or root is self:
+                root = Arr(self.shape, self.legs, self.dt, None, {k_: v_ for k_, v_ in self.tags.items() if k_ not in ('scale', 'inplace_done')}, self.origin, parents=self.parents)
+            self.tags['scale'] = (c0 * o if name == 'mul' else c0 / o, root)
+        elif 'scale' in self.tags and 'sel_of' not in self.tags:
+            self.tags.pop('scale', None)
         self.tags.pop('const', None)
         self.tags.pop('orth', None)
         return self
